@@ -285,15 +285,25 @@ func containerEffects(c *core.Ctx, R string) {
 			return true
 		})
 		n := 0
-		ast.Inspect(u.Body, func(x ast.Node) bool {
-			lit, ok := x.(*ast.CompositeLit)
-			if !ok || core.TypeName(info.TypeOf(lit)) != "eventEntry" {
+		for _, hu := range u.WithHelpers() {
+			ast.Inspect(hu.Body, func(x ast.Node) bool {
+				lit, ok := x.(*ast.CompositeLit)
+				if !ok || core.TypeName(info.TypeOf(lit)) != "eventEntry" {
+					return true
+				}
+				n++
+				loc := g.LocOf(lit)
+				if hu != u { // built by an extracted helper: the nil test is judged at the helper call
+					for _, cl := range u.Calls() {
+						if cl.Inlined == nil && cl.Callee != nil && c.P.UnitOf(cl.Callee) == hu {
+							loc = cl.Loc
+						}
+					}
+				}
+				c.Check(R, k+"/entry-only-for-non-nil-listener", lit.Pos(), loopVar != "" && g.GuardedBy(loc, gNilLocal(loopVar, true)), "a nil listener is skipped: its entry would panic when emitted")
 				return true
-			}
-			n++
-			c.Check(R, k+"/entry-only-for-non-nil-listener", lit.Pos(), loopVar != "" && g.GuardedBy(g.LocOf(lit), gNilLocal(loopVar, true)), "a nil listener is skipped: its entry would panic when emitted")
-			return true
-		})
+			})
+		}
 		c.Need(R, "eventEntry literals in "+k, n, 1)
 	}
 	for _, k := range []string{"utils.(*ParameterBag).Get", "utils.(*ParameterBag).GetFirst"} {
